@@ -163,3 +163,17 @@ func init() {
 		Stages: []Stage{{Name: "locations", Pkg: "./mon/c11", Race: true, Procs: 8, Batches: [2]int{3, 8}, TimeoutS: [2]int{1200, 3600}, HangIsViolation: true}},
 	}
 }
+
+func init() {
+	properties["C20"] = Property{
+		Level: "exploration",
+		Rule:  "cases: (a) one add/remove history of 8-23 steps around MaxFacts in 1..6 on ids max+2 wide (facts, rules, overwrites at the boundary), both states, plus rounds of 8 concurrent adders; (b) one breaker run: limit 1-20, interval 40-400 ms, 1-16 concurrent callers, arrival patterns burst+slow poll / burst+fast poll (faster than interval/20) / steady / random over 3 intervals, every Zap logged with [before, after] and checked offline for the sliding-window bound and for recovery; (c) one throttle run: 8-63 submitters, pending limit 1-4; non-trivial = the limit was reached (an add refused / a poll refused / a submission overflowed); distinct by the run's parameters and history",
+		Floor: [2]int{30, 300},
+		Assumptions: []string{"breaker verdicts use only interval arithmetic on monotonic [before, after] stamps: a rate violation needs limit+1 admissions with max(after)-min(before) < interval; a recovery violation needs a refused poll whose `before` is later than every earlier admission's `after` + interval + 2 ticks", "a starved period in which every gap between consecutive polls is shorter than interval/20 is the open finding c20.breaker-fast-poll-starvation"},
+		Stages: []Stage{
+			{Name: "capacity", Pkg: "./mon/c20", Race: true, Procs: 4, Batches: [2]int{2, 4}, TimeoutS: [2]int{900, 3600}},
+			{Name: "breaker", Pkg: "./mon/c20", Race: true, Procs: 4, Batches: [2]int{4, 8}, TimeoutS: [2]int{900, 3600}},
+			{Name: "throttle", Pkg: "./mon/c20", Race: true, Procs: 4, Batches: [2]int{2, 4}, TimeoutS: [2]int{900, 3600}},
+		},
+	}
+}
